@@ -79,8 +79,22 @@ def _read_func(fd, typevars):
   for p in pos + a.kwonlyargs + [x for x in (a.vararg, a.kwarg) if x]:
     used |= _names_in(p.annotation)
   used |= _names_in(fd.returns)
+  # "receiver-generic": the only TypeVar of the signature is the one that
+  # annotates the receiver (`self: _T` / `cls: type[_T]`), so the result is
+  # determined by the class the member is looked up through
+  recv_tv = None
+  tvs = used & typevars
+  if len(tvs) == 1 and pos and pos[0].annotation is not None:
+    tv = next(iter(tvs))
+    first = ast.unparse(pos[0].annotation)
+    rest = set()
+    for p in pos[1:] + a.kwonlyargs + [x for x in (a.vararg, a.kwarg) if x]:
+      rest |= _names_in(p.annotation)
+    if first in (tv, "type[%s]" % tv, "Type[%s]" % tv) and tv not in rest:
+      recv_tv = tv
   return {"name": fd.name, "decorators": decos, "params": params,
           "ret": _ann(fd.returns), "generic": bool(used & typevars),
+          "recv_tv": recv_tv, "ret_node": fd.returns,
           "vararg": a.vararg is not None, "kwarg": a.kwarg is not None}
 
 
@@ -121,11 +135,33 @@ def _call_args(f, skip_first):
   return ", ".join(args)
 
 
-def _probeable(fs):
+class _Subst(ast.NodeTransformer):
+
+  def __init__(self, tv, cls):
+    self.tv, self.cls = tv, cls
+
+  def visit_Name(self, node):
+    if node.id == self.tv:
+      return ast.copy_location(ast.Name(id=self.cls, ctx=ast.Load()), node)
+    return node
+
+
+def _ret_through(f, cls):
+  """Declared result of member `f` when it is looked up through class `cls`."""
+  if not f.get("recv_tv"):
+    return f["ret"]
+  import copy
+  node = _Subst(f["recv_tv"], cls).visit(copy.deepcopy(f["ret_node"]))
+  return ast.unparse(node)
+
+
+def _probeable(fs, receiver=False):
   if len(fs) != 1:
     return None      # overloaded
   f = fs[0]
-  if f["generic"] or f["async"]:
+  if f["async"]:
+    return None
+  if f["generic"] and not (receiver and f.get("recv_tv")):
     return None
   if any("overload" in d for d in f["decorators"]):
     return None
@@ -219,20 +255,36 @@ def derive_downstream(stub_info, up="a", rng=None):
       if inst:
         probe("a", "%s.%s.%s" % (up, inst, aname), ann)
     for mname, fs in sorted(c["funcs"].items()):
-      f = _probeable(fs)
+      f = _probeable(fs, receiver=True)
       if f is None or mname.startswith("__"):
         continue
       decos = " ".join(f["decorators"])
+      if "staticmethod" not in decos:
+        # a function object stored as a class attribute is printed as a method
+        # whose first parameter keeps the function's own annotation
+        # (`def a18(p0: float)`); calling it through an instance is a type
+        # error in A as well, so it is no probe
+        if not f["params"] or f["params"][0]["kind"] != "pos":
+          continue
+        if f["params"][0]["ann"] is not None and not f.get("recv_tv"):
+          continue
       if "staticmethod" in decos:
-        probe("s", "%s.%s.%s(%s)" % (up, cls, mname, _call_args(f, False)), f["ret"])
+        if not f["generic"]:
+          probe("s", "%s.%s.%s(%s)" % (up, cls, mname, _call_args(f, False)), f["ret"])
       elif "classmethod" in decos:
-        probe("k", "%s.%s.%s(%s)" % (up, cls, mname, _call_args(f, True)), f["ret"])
+        # through the class and (when there is one) through an instance
+        probe("k", "%s.%s.%s(%s)" % (up, cls, mname, _call_args(f, True)),
+              _ret_through(f, cls))
+        if inst and f.get("recv_tv"):
+          probe("k", "%s.%s.%s(%s)" % (up, inst, mname, _call_args(f, True)),
+                _ret_through(f, cls))
       elif "property" in decos:
         if inst:
-          probe("a", "%s.%s.%s" % (up, inst, mname), f["ret"])
+          probe("a", "%s.%s.%s" % (up, inst, mname), _ret_through(f, cls))
       elif not f["decorators"]:
         if inst:
-          probe("m", "%s.%s.%s(%s)" % (up, inst, mname, _call_args(f, True)), f["ret"])
+          probe("m", "%s.%s.%s(%s)" % (up, inst, mname, _call_args(f, True)),
+                _ret_through(f, cls))
     for ncls in sorted(c["classes"]):
       probe("n", "%s.%s.%s" % (up, cls, ncls), "type[%s.%s]" % (cls, ncls))
   # from-import forms
